@@ -1,11 +1,13 @@
 #!/bin/sh
 # Regenerate coq/_CoqProject (every .v under coq/ except generated cases) and the coq_makefile Makefile.
+# Safe under concurrency: callers hold coq/.build.lock (harness/common.py, setup.sh); temp names are per-process.
 set -e
 cd "$(dirname "$0")/../coq"
+tmp=_CoqProject.new.$$
 {
   echo "-R . Verif"
   echo "-arg -w -arg -notation-overridden,-deprecated-hint-without-locality,-deprecated-instance-without-locality"
   find . -name '*.v' ! -path './cases/*' | sed 's|^\./||' | LC_ALL=C sort
-} > _CoqProject.new
-if ! cmp -s _CoqProject.new _CoqProject 2>/dev/null; then mv _CoqProject.new _CoqProject; else rm _CoqProject.new; fi
+} > $tmp
+if ! cmp -s $tmp _CoqProject 2>/dev/null; then mv $tmp _CoqProject; else rm -f $tmp; fi
 coq_makefile -f _CoqProject -o Makefile >/dev/null
